@@ -504,13 +504,26 @@ func (x *Exec) doRun(op Op) (*StepRecord, error) {
 	if err != nil {
 		return nil, err
 	}
+	second := ""
+	if run.SecondContext {
+		tmp, err := x.Env.NewWorld()
+		if err != nil {
+			return nil, infra("second context: %v", err)
+		}
+		defer os.RemoveAll(tmp)
+		second = filepath.Join(tmp, "m")
+		if err := CopyTree(x.Root, second); err != nil {
+			return nil, infra("second context: %v", err)
+		}
+		x.Env.Stats.Add("probe/two-contexts-alive-at-once", 1)
+	}
 	cwd := ""
 	if run.Cwd != "" {
 		cwd = filepath.Join(x.Root, run.Cwd)
 		x.Env.Stats.Add("probe/run-from-a-package-directory", 1)
 	}
 	req := &proto.RunReq{Root: x.Root, Cwd: cwd, Args: run.Args, Gens: run.Gens, Sched: run.Sched, Faults: run.Faults, ReadSum: run.Args.All, RetrySameExecutor: run.RetrySameExecutor,
-		FirstGlobals: run.FirstGlobals, HasFirstGlobals: run.HasFirstGlobals}
+		FirstGlobals: run.FirstGlobals, HasFirstGlobals: run.HasFirstGlobals, FirstGens: run.FirstGens, SecondContext: second}
 	for i := range req.Faults {
 		if req.Faults[i].Kind != "" {
 			req.Faults[i].ExecSeq = -1
